@@ -17,7 +17,7 @@ from crosshair.tracers import NoTracing
 from ..chrun import Chooser
 from ..common import Check, HarnessError
 from .. import stublex
-from ..recorder import Recorder
+from ..recorder import Recorder, same_scope
 
 TWIN = False
 
@@ -419,7 +419,7 @@ def h_ind(anon0: int, c0: int, c1: int, c2: int) -> bool:
     p.parse()
     if TWIN:
         return False
-    if p.state is not st or p.visitor is not vis:
+    if not same_scope(p.state, st) or p.visitor is not vis:
         return False  # (parser.current_namespace is written but never read by the parser: not observable, not asserted)
     with NoTracing():
         pending = [t for t in p.lex.tokbuf if t.type not in ("NEWLINE", "WHITESPACE", "COMMENT_SINGLELINE", "COMMENT_MULTILINE")]
